@@ -36,12 +36,15 @@ WH(n) == CASE n = "W_UlcTrue"          -> ~(last.op = "auth" /\ last.res = "True
           [] n = "W_AttributeErrorLock" -> ~(last.res = "AttributeError" /\ last.op = "lock" /\ tag.slock)
           [] n = "W_IndexError"       -> ~(last.res = "IndexError")
           [] n = "W_ValueErrorResp"   -> ~(last.res = "ValueError" /\ last.pw.v # "short")
-          [] OTHER (* W_FormatFalseChanged *) -> ~(last.op = "format" /\ last.res = "False" /\ tag.user # last.user0 /\ pc = "idle")
+          [] OTHER (* W_FormatFalseChanged *) -> ~(last.op = "format" /\ last.res = "False" /\ tag.user # last.user0 /\ pc = "idle" /\ ~last.off)
 WNames == <<"W_UlcTrue", "W_UlcFalseWrongKey", "W_UlcFalseTamper", "W_UlcHalfKey", "W_PwdTrue", "W_ProtectUlc", "W_ProtectNtag",
             "W_ProtectEv1", "W_ProtectCC", "W_ProtectRefused", "W_ProtectImmPartial", "W_CutMixedKey", "W_CutFalse",
             "W_ProtectOther", "W_ProtectAuth", "W_LockTrue", "W_LockTrueUlc", "W_LockFalse", "W_LockTwice", "W_NdefHidden",
             "W_NdefOverride", "W_NdefReadOnly", "W_FormatDefaults", "W_FormatRefusedBlank", "W_ValueErrorShortPw",
             "W_AttributeError", "W_AttributeErrorLock", "W_IndexError", "W_ValueErrorResp", "W_FormatFalseChanged">>
+\* quick tier: the second operation of a behaviour is an authentication or tag.ndef (a second protect / lock / format
+\* is explored from the protected initial tags and in the thorough tier)
+SecondOpSmall == (nops >= 1 /\ pc # "idle") => op.name = "auth"
 Reached == \A i \in DOMAIN WNames :
               (~WH(WNames[i]) /\ TLCGetOrDefault(i, 0) = 0) => (TLCSet(i, 1) /\ PrintT(<<"WITNESS", WNames[i]>>))
 =============================================================================
